@@ -43,6 +43,23 @@ PLAN = {
     "C14": heap("cyclic", 2, [("full", "dev"), ("full", "release"), ("nofin", "dev")]),
 }
 
+def simple(engine, configs, quick, thorough, args=None):
+    return [{"engine": engine, "config": c, "profile": p, "shard": 10 + k, "args": dict(args or {}),
+             "quick": {"cases": quick}, "thorough": {"cases": thorough}} for k, (c, p) in enumerate(configs)]
+
+
+PLAN["C03"] += simple("layout", [("full", "dev"), ("nofin", "dev"), ("min", "release")], 4000, 150000)
+PLAN["C13"] += simple("layout", [("full", "dev"), ("min", "release")], 4000, 150000)
+PLAN["C15"] = simple("policy", [("full", "dev"), ("full", "release"), ("default", "dev"), ("noauto", "dev")], 3000, 60000)
+PLAN["C16"] = simple("limits", [("full", "dev"), ("full", "release"), ("nofin", "dev"), ("default", "release")], 120, 3000)
+PLAN["C17"] = simple("containers", [("full", "dev"), ("full", "release"), ("default", "dev")], 4000, 120000)
+PLAN["C20"] = simple("fwd", [("full", "release"), ("min", "release"), ("full", "dev")], 20000, 500000) + \
+    simple("layout", [("full", "dev"), ("min", "release"), ("full", "release")], 4000, 150000)
+
+PLAN["C18"] = [{"engine": "derive", "config": "default", "profile": "dev", "args": {}, "quick": {}, "thorough": {}}]
+PLAN["C19"] = simple("threads", [("full", "dev"), ("full", "release"), ("nofin", "dev")], 150, 6000) + \
+    simple("teardown", [("full", "dev"), ("full", "release"), ("default", "dev"), ("min", "release")], 150, 4000)
+
 LEVEL = {"C07": "fault_enumeration"}
 
 RULES = {
@@ -59,6 +76,12 @@ RULES = {
     "C11": "proptest heap programs; buffer walk, cached size, byte accounting after every operation. Non-trivial: buffered_objects_count() changed >=4 times through >=3 different kinds of operation. Distinct by case hash.",
     "C12": "proptest heap programs with nesting profile. Non-trivial: a collection was started from a callback of a plain reference-count drop, or a collection was requested from a collector callback. Distinct by case hash.",
     "C13": "proptest heap programs with try_unwrap-heavy profile. Non-trivial: an Ok on an object that had lost a pointer before or had weak pointers, and an Err in the same case. Distinct by case hash.",
+    "C15": "proptest allocation/release workloads (leaves of 9 size classes up to 64 KiB, garbage and live rings, releases, buffering, explicit collections, configuration changes at arbitrary points; percent from {0, 1e-9, 0.05, 0.1, 0.5, 0.9, 0.99, 1}; buffered threshold None or 1..8). Non-trivial: the byte threshold both grew and shrank during the workload and >=1 creation happened within 4200 bytes of the trigger boundary. Distinct by FNV hash of the workload.",
+    "C16": "proptest cases: object variant (created inside a finalizer or not, self-cycle or not, side record or not) x route to the limit (clone / upgrade / mixed) x start offset 0..3 below 16382 (strong) and 32767 (weak) x a 1..40 step walk of clone/upgrade/downgrade/Weak::clone/drop/Weak::drop. Non-trivial: the walk hit a limit and either moved away and came back, or hit limits twice. Distinct by case hash.",
+    "C17": "proptest cases: container shape (tuples 1..12, arrays 0/1/2/3/8/32, Vec 0..40, boxed slice, Box, Option, Result, RefCell free/borrowed/mutably borrowed, ManuallyDrop, AssertUnwindSafe, Box<dyn Trace>, 10 two-level nestings, a tuple with Weak/Cleaner/Cleanable/PhantomData/scalars) x which positions own a Cc x which one carries the cycle back to the owner x which targets have an extra program handle. Non-trivial: the cycle routed through the chosen position was reclaimed. Distinct by case hash.",
+    "C18": "seeded grammar of type definitions (structs unit/tuple/named with 0..8 fields, enums with 1..4 variants of mixed kinds, #[rust_cc(ignore)] on fields and variants, a type parameter, nested std containers; ignored fields alternate between a probe and a type without Trace); 60 types + 20 Drop-conflict probes per quick run (600 + 100 thorough), compiled with the real derive macro and executed. Non-trivial: a type definition with >=1 ignored and >=1 traced probe position. Distinct by hash of the definition.",
+    "C19": "(a) proptest: 2..16 threads, one generated panic-free heap program per thread, yields at generated operation boundaries, result compared with the same program run alone; (b) proptest thread-teardown scenarios run in child processes (thread-locals with Ccs/Weaks/cleanables registered before or after the collector's thread-local; unique, buffered, cyclic objects; garbage cycles buffered at exit). Non-trivial: (a) >=2 threads were inside collect_cycles() at the same time (shared atomic counter); (b) a scenario with objects in thread-locals or garbage buffered at exit. Distinct by case hash.",
+    "C20": "(a) proptest value pairs over i32, u8, f64 and f32 (NaN, +-0, infinities), String, (i32, String), Option<i64>: every comparison operator, cmp, hash (SipHash and FNV), Debug, Display, Default on Cc<T> against T; (b) layout grid 13 alignments (1..4096) x 8 sizes (0..4096) x linked/plain payloads with generated programs: address laws after every operation. Non-trivial: pairs with x != y (trait half) / programs of >=3 operations (address half). Distinct by case hash.",
     "C14": "proptest heap programs with new_cyclic-heavy profile and faults. Non-trivial: a new_cyclic call during which a collection ran, or whose closure panicked after saving a weak clone. Distinct by case hash.",
 }
 
@@ -102,12 +125,36 @@ CLAIMS = {
                  "Inside the closure the weak is dead and counts are exact; afterwards strong_count is 1; if the closure or the triggered collection panics no Node destructor may run on unconstructed memory (canary), the box is released and saved weaks stay dead."),
 }
 
-NOT_APPLICABLE = [
-    {"property_id": p, "reason": "check under construction in this session (specialised generator not committed yet); the technique applies, see DESIGN.md section 5"}
-    for p in ["C15", "C16", "C17", "C18", "C19", "C20"]
+SIMPLE_NOTE = "Trusted: the harness oracle code, the read-only hooks, rustc. Sampling over the stated grid, not proof."
+CLAIMS["C15"] = claim("property-based testing (proptest) of allocation workloads against the documented trigger condition and a threshold validity predicate",
+                      "Around every top-level Cc::new the executions_count delta is compared with auto_collect && (bytes > threshold || buffered > buffered_threshold) read just before (threshold through the read-only hook); after every collection the threshold must be 100*2^k, above the bytes, and not needlessly high.", SIMPLE_NOTE, "policy")
+CLAIMS["C16"] = claim("property-based testing (proptest), saturating-counter model at the boundary values",
+                      "Walks of pointer operations around 16382 strong / 32767 weak pointers: an operation that would exceed the limit must panic with all counts unchanged, otherwise succeed; flag bits sharing the word and already_finalized() never change; afterwards the object is finalized once, dropped once and freed.", SIMPLE_NOTE, "limits")
+CLAIMS["C17"] = claim("property-based testing (proptest) over macro-instantiated container shapes with counting probe leaves and the trace-report hook",
+                      "Per shape and position: every probe is traced exactly as often as its owner (0 under a borrowed RefCell), the allocations reported to the collector are exactly the owned Ccs, the cycle through the chosen position is reclaimed, targets with an extra handle survive intact, finalizers are forwarded once.", SIMPLE_NOTE, "containers")
+CLAIMS["C20"] = claim("property-based testing (proptest): differential Cc<T> vs T on value pairs; address laws on a layout grid",
+                      "Every forwarding trait method on Cc<T> is compared with the same call on T for generated pairs; Deref/AsRef/Borrow addresses are equal, aligned, inside the live block, stable across clones/upgrades/collections; ptr_eq iff same allocation.", SIMPLE_NOTE, "fwd+layout")
+
+CLAIMS["C18"] = claim("grammar-based generation of type definitions compiled with the real derive macro; probe-count oracle; rustc error-code oracle for Drop conflicts",
+                      "Generated struct/enum definitions are compiled with #[derive(Trace, Finalize)] and executed: probes in non-ignored positions of the active variant are traced exactly as often as their owner, all others never; derived Finalize forwards nothing; a user Drop is rejected with exactly one E0119 unless unsafe_no_drop is given. Failing types are shrunk by deleting fields and variants.",
+                      "Trusted: the generator/oracle (lib/derivegen.py), rustc's diagnostics. Sampling over the grammar.", "derive")
+CLAIMS["C19"] = claim("property-based differential testing (concurrent vs solo execution of generated per-thread programs); generated teardown scenarios in child processes",
+                      "Each thread's observable result (event log, every count read, counters) must equal that of the same program run alone - schedule-independent, so no interleaving can raise a false alarm; thread-exit scenarios must end with exit status 0, no allocator rule violated and no callback on a dead value.",
+                      "Interleavings are sampled by the OS scheduler, not enumerated (loom/shuttle cannot model std::thread_local!); the teardown half is deterministic.", "threads+teardown")
+
+NOT_APPLICABLE = []
+
+ENGINES_EXTRA = [
+    {"name": "policy", "path": "/verif/harness/src/policy.rs (rccv policy)", "serves_properties": ["C15"], "kind_free_text": "proptest workloads for the automatic collection policy"},
+    {"name": "limits", "path": "/verif/harness/src/limits.rs (rccv limits)", "serves_properties": ["C16"], "kind_free_text": "proptest boundary walks at the counter limits"},
+    {"name": "containers", "path": "/verif/harness/src/containers.rs (rccv containers)", "serves_properties": ["C17"], "kind_free_text": "proptest over container shapes with probe leaves"},
+    {"name": "layout", "path": "/verif/harness/src/layout.rs (rccv layout)", "serves_properties": ["C03", "C13", "C20"], "kind_free_text": "proptest programs over a grid of payload layouts with the tracking allocator"},
+    {"name": "derive", "path": "/verif/lib/derivegen.py", "serves_properties": ["C18"], "kind_free_text": "seeded grammar of type definitions -> generated crates compiled with the real derive macro"},
+    {"name": "threads+teardown", "path": "/verif/harness/src/threads.rs (rccv threads | teardown)", "serves_properties": ["C19"], "kind_free_text": "proptest per-thread programs run concurrently vs solo; teardown scenarios in child processes"},
+    {"name": "fwd", "path": "/verif/harness/src/fwd.rs (rccv fwd)", "serves_properties": ["C20"], "kind_free_text": "proptest value pairs, Cc<T> vs T"},
 ]
 
 ENGINES = [
     {"name": "g1-proptest-heap", "path": "/verif/harness (rccv g1)", "serves_properties": sorted(PLAN.keys()),
      "kind_free_text": "proptest TestRunner driven from a binary: generated heap programs (Vec<Op> + callback scripts + fault requests) interpreted against the real crate with a shadow graph, instrumented callbacks and a tracking/poisoning allocator; integrated shrinking; fixed seeds"},
-]
+] + ENGINES_EXTRA
